@@ -141,7 +141,14 @@ impl BuildJob<'_> {
         let newstamp = sf.read_stamp(ptx.state().env())?;
         if sf.is_generated()
             && !newstamp.is_missing()
-            && (sf.is_override || Stamp::detect_override(sf.stamp.as_ref().unwrap(), &newstamp))
+            && (sf.is_override
+                || sf
+                    .stamp
+                    .as_ref()
+                    // No stamp: a first build that called redo-stamp was
+                    // interrupted before its result was recorded; nothing
+                    // the user could have overridden yet.
+                    .map_or(false, |old| Stamp::detect_override(old, &newstamp)))
         {
             let nice_t = nice(ptx.state().env(), &t).map_err(RedoError::opaque_error)?;
             state::warn_override(&nice_t);
